@@ -70,6 +70,14 @@ func isRunningMaxPhi(q *ssa.Phi, cand VMatch) (ssa.Value, bool) {
 }
 
 func runC19(p *Prog, r *Report) {
+	if want("C19.13") {
+		// recovered tables enter level 0, newest last (shared with C06)
+		ruleRecoveredLevelZero(p, r, "C19.13")
+	}
+	if want("C19.12") {
+		// Recover serves only blocks whose checksum was verified (shared with C08/C13)
+		ruleChecksumGates(p, r, "C19.12")
+	}
 	rt := p.Fn("leveldb", "recoverTable")
 	var build, rec, cb *ssa.Function
 	if rt != nil {
